@@ -172,7 +172,8 @@ MCInit ==
           \/ Struct("Script", InTiny, 3, "full3", 2)
           \/ Struct("Script", InTiny, 2, "small", 3)
           \/ Struct("Script", InContr, 3, "contr", 3)
-          \/ \E k \in RestrictedKinds : \/ Struct(k, InFull, 2, "full2", 1)
+          \/ Struct("Script", InSmall, 3, "full3", 1)
+          \/ \E k \in RestrictedKinds : \/ Struct(k, InFull, 2, "full2", 2)
                                         \/ Struct(k, InSmall, 2, "small", 2)
                                         \/ Struct(k, InTiny, 3, "small", 1)
 
@@ -184,7 +185,7 @@ Actual(r) == IF r \in {"maxSize", "maxGasPerTx"} THEN 1000 ELSE BN!ToNat(c.p[r])
 Go(t, p, tag) == c' = Mk(t, p, c.h, tag)
 
 \* one limit is set just below the quantity it bounds
-ALimit == /\ Mutable /\ Small
+ALimit == /\ Mutable
           /\ \E r \in LimitNames :
                /\ Actual(r) >= 1
                /\ Go(c.tx, [c.p EXCEPT ![r] = N(Actual(r) - 1)], "limit:" \o r)
